@@ -142,6 +142,7 @@ def check(prog: Program, rep: Report, relpaths: Iterable[str], clause="G1", floo
     rep.floor("G1 function scopes analysed", n_funcs, floor)
     late_binding(prog, rep, relpaths, clause=clause)
     shared_class_state(prog, rep, relpaths, clause=clause)
+    shared_defaults(prog, rep, relpaths, clause=clause)
 
 
 def _strip_comp(qual: str) -> str:
@@ -314,7 +315,12 @@ def shared_class_state(prog: Program, rep: Report, relpaths: Iterable[str], clau
                     dep = Deps(fa, control=True)
 
                     def attrs_of(e, at):
-                        return {x[1] for x in dep.of(e, at) if x[0] == "self"} - {a}
+                        # what distinguishes one instance from another: its attributes and, in the constructor, its arguments
+                        d_ = dep.of(e, at)
+                        out_ = {x[1] for x in d_ if x[0] == "self"} - {a}
+                        if fi.name == "__init__":
+                            out_ |= {f"<argument {x[1]}>" for x in d_ if x[0] == "param" and x[1] != me}
+                        return out_
 
                     for nn, nd in fa.cfg.nodes.items():
                         st = nd.ast if nd.kind == "stmt" else None
@@ -324,7 +330,7 @@ def shared_class_state(prog: Program, rep: Report, relpaths: Iterable[str], clau
                                         and isinstance(t.value.value, ast.Name) and t.value.value.id == me:
                                     extra = attrs_of(st.value, nn) - attrs_of(t.slice, nn)
                                     if extra:
-                                        bad.append((st.lineno, f"{fi.name} stores a value that depends on self.{', self.'.join(sorted(extra))} "
+                                        bad.append((st.lineno, f"{fi.name} stores a value that depends on {', '.join(_pretty(extra))} "
                                                                f"under a key that does not"))
                         for c in fa.cfg.calls_at(nn):
                             f = c.func
@@ -333,11 +339,11 @@ def shared_class_state(prog: Program, rep: Report, relpaths: Iterable[str], clau
                                 if f.attr in ("append", "add", "extend", "insert"):
                                     extra = attrs_of(c.args[-1], nn)
                                     if extra:
-                                        bad.append((c.lineno, f"{fi.name} appends a value that depends on self.{', self.'.join(sorted(extra))}"))
+                                        bad.append((c.lineno, f"{fi.name} appends a value that depends on {', '.join(_pretty(extra))}"))
                                 elif f.attr == "setdefault" and len(c.args) == 2:
                                     extra = attrs_of(c.args[1], nn) - attrs_of(c.args[0], nn)
                                     if extra:
-                                        bad.append((c.lineno, f"{fi.name} setdefaults a value that depends on self.{', self.'.join(sorted(extra))} "
+                                        bad.append((c.lineno, f"{fi.name} setdefaults a value that depends on {', '.join(_pretty(extra))} "
                                                               f"under a key that does not"))
                 o = rep.decide(not bad, SC_RULE, m, f"class-attribute:{C.name}.{a}", "not written through instances with "
                                "instance-dependent values", "; ".join(f"{w} (line {ln})" for ln, w in bad[:3]) +
@@ -345,3 +351,52 @@ def shared_class_state(prog: Program, rep: Report, relpaths: Iterable[str], clau
                                f"others", line=bad[0][0] if bad else C.node.lineno, clause=clause)
                 o.func = C.name
     return n
+
+
+def _pretty(extra):
+    return [x if x.startswith("<") else f"self.{x}" for x in sorted(extra)]
+
+
+# ---- mutable default arguments kept by the instance ---------------------------------------------------------------------------------
+MD_RULE = "G1.shared-default"
+MD_TEXT = ("a parameter default that is a freshly built object (a call such as Value(..) / Lock() / [] / {} / set()) exists once per "
+           "function, not once per call.  A method that stores such a default - unchanged - into an attribute of the instance makes "
+           "every instance created without that argument share one object: state that should belong to one instance (a step "
+           "counter, a cache) is advanced by all of them")
+
+
+def shared_defaults(prog: Program, rep: Report, relpaths: Iterable[str], clause="G1"):
+    rep.rule(MD_RULE, MD_TEXT)
+    for rel in relpaths:
+        m = prog.raw.module(rel)
+        hits = []
+        for cls in [c for c in ast.walk(m.tree) if isinstance(c, ast.ClassDef)]:
+            for fn in [f for f in cls.body if isinstance(f, ast.FunctionDef)]:
+                a = fn.args
+                pos = a.posonlyargs + a.args
+                dflt = dict(zip([x.arg for x in pos][len(pos) - len(a.defaults):], a.defaults))
+                dflt.update({x.arg: d for x, d in zip(a.kwonlyargs, a.kw_defaults) if d is not None})
+                me = pos[0].arg if pos else None
+                for p, d in dflt.items():
+                    immutable_call = isinstance(d, ast.Call) and isinstance(d.func, ast.Name) and d.func.id in (
+                        "tuple", "frozenset", "int", "float", "str", "bool", "bytes", "object", "Path", "range")
+                    fresh = (isinstance(d, (ast.List, ast.Dict, ast.Set, ast.ListComp, ast.DictComp, ast.SetComp))
+                             or (isinstance(d, ast.Call) and not immutable_call))
+                    if not fresh:
+                        continue
+                    rebound = any(isinstance(y, ast.Name) and y.id == p and isinstance(y.ctx, ast.Store) for y in ast.walk(fn))
+                    if rebound:
+                        continue
+                    for st in ast.walk(fn):
+                        if isinstance(st, ast.Assign) and isinstance(st.value, ast.Name) and st.value.id == p:
+                            for t in st.targets:
+                                if isinstance(t, ast.Attribute) and isinstance(t.value, ast.Name) and t.value.id == me:
+                                    hits.append((cls.name, fn.name, p, t.attr, ast.unparse(d)[:40], st.lineno))
+        for cname, fname, p, attr, dtxt, line in hits:
+            o = rep.bad(MD_RULE, m, f"default:{cname}.{fname}:{p}", f"{cname}.{fname} stores its default argument {p}={dtxt} into "
+                        f"self.{attr}: the default is built once, so all instances created without '{p}' share that object",
+                        line=line, clause=clause)
+            o.func = f"{cname}.{fname}"
+        if not hits:
+            rep.ok(MD_RULE, m, "no-shared-default", "no freshly built default argument is kept by an instance", clause=clause,
+                   nontrivial=False)
